@@ -88,9 +88,9 @@ def clsText : Res Vals → String
   | .fuel => "FUEL model"
 
 def crashSpec (what key op got : String) : List SpecFail :=
-  if got.startsWith "PANIC" || got.startsWith "CRASH" then [⟨"no-panic", key, s!"{what} crashed on {op.take 160}: {got}"⟩]
+  if got.startsWith "TIMEOUT" || (got.splitOn "watchdog timeout").length > 1 then [⟨"no-spin", key, s!"{what} did not return on {op.take 160}"⟩]
+  else if got.startsWith "PANIC" || got.startsWith "CRASH" then [⟨"no-panic", key, s!"{what} crashed on {op.take 160}: {got}"⟩]
   else if got.startsWith "ALLOC" then [⟨"alloc-linear", key, s!"{what} allocated out of proportion to its input on {op.take 160}: {got}"⟩]
-  else if got.startsWith "TIMEOUT" then [⟨"no-spin", key, s!"{what} did not return on {op.take 160}"⟩]
   else []
 
 def kv (s key : String) : String :=
